@@ -4,4 +4,4 @@ From Coq Require Import NArith ZArith List.
 From Coq Require Extraction ExtrOcamlBasic.
 From ZV.Codec Require Import Bytes XXH64 Fse Huf Block Frame Encode Reassemble.
 Extraction Language OCaml.
-Extraction "Extract/out/rdecoder.ml" R decode_frame parse_dict parse_fheader default_config xxh64 raw_dict reassemble_check enc_fheader_of enc_store reencode_check lz_frame lz_frame_blocks enc_skippable.
+Extraction "Extract/out/rdecoder.ml" R decode_frame parse_dict parse_fheader default_config xxh64 raw_dict reassemble_check enc_fheader_of enc_store reencode_check lz_frame lz_frame_blocks enc_skippable xreset xupdate xdigest.
